@@ -10,6 +10,7 @@
                                                      from the Parameter default 4)
    "closed"  __init__(self, a, b=7)                 (no **params)
    "kwonly"  __init__(self, a, *, b=7)              (b keyword-only, no **params)
+   "kwreq"   __init__(self, a, *, b)                (b keyword-only and required, no **params)
  with parameters a, b (numbers), s (string), l (list), t (tuple-valued),
  sub (None or a nested Parameterized object) and the name.  A state chooses
  the shape and a value token for every parameter.  The module predicts the
@@ -37,7 +38,7 @@ Init == /\ shape \in Shapes /\ defa \in DefAVals
         /\ val \in [a : AVals, b : BVals, s : SVals, l : LVals, t : TVals, sub : SubVals, d : DVals]
         /\ name \in NameVals
         \* a constructor without **params cannot receive the other parameters: they keep their defaults
-        /\ (shape \in {"closed", "kwonly"} => /\ \A p \in PNames \ {"a", "b"} : val[p] = Default[p]
+        /\ (shape \in {"closed", "kwonly", "kwreq"} => /\ \A p \in PNames \ {"a", "b"} : val[p] = Default[p]
                                 /\ name = "auto")
 Next == UNCHANGED vars
 Spec == Init /\ [][Next]_vars
@@ -49,8 +50,9 @@ ExplicitName == name # "auto"
 Keywords ==
   (CASE shape \in {"kw", "pos2"} -> Changed \ PosSet
      [] shape = "poskw" -> (Changed \ {"a", "b"}) \cup (IF val.b # SigDefaultB THEN {"b"} ELSE {})
-     [] shape \in {"closed", "kwonly"} -> IF val.b # SigDefaultB THEN {"b"} ELSE {})
-  \cup (IF ExplicitName /\ shape \notin {"closed", "kwonly"} THEN {"name"} ELSE {})
+     [] shape \in {"closed", "kwonly"} -> IF val.b # SigDefaultB THEN {"b"} ELSE {}
+     [] shape = "kwreq" -> {"b"})                   \* a required argument is always written
+  \cup (IF ExplicitName /\ shape \notin {"closed", "kwonly", "kwreq"} THEN {"name"} ELSE {})
 
 \* applying the predicted call to the abstract constructor
 Rebuilt ==
